@@ -15,14 +15,18 @@ LEVEL_TEXT = (
     "on every grid), domain indices are repeated to match child placement, union() reverses orientation with an odd "
     "permutation exactly under swapped_normals and applies running offsets, adjacency filters use 2 <-> edge / "
     "1 <-> vertex on one element-to-element matrix, the 6-row edge-adjacency layout written equals the layout read by "
-    "the singular assembler, boundary flags come from diagonal == 1, and all copies of the local edge convention "
-    "agree with _EDGE_LOCAL."
+    "the singular assembler, boundary flags come from diagonal == 1, all copies of the local edge convention "
+    "agree with _EDGE_LOCAL, and the vectorised geometry code, evaluated symbolically per element in exact "
+    "arithmetic over the nine vertex coordinates, yields exactly the defining formulas of normals (unit, "
+    "right-handed), volumes, integration elements, diameters, centroids, Jacobians and inverse-transposed Jacobians."
 )
 LEVEL_NOTE = (
-    "Out of reach statically: uniqueness/completeness of the edge enumeration and adjacency tables for arbitrary "
-    "triangle soups, and the vectorised numpy geometry (_compute_geometric_quantities) as numbers."
+    "Out of reach statically: uniqueness/completeness of the edge enumeration and of the neighbour tables for "
+    "arbitrary triangle soups (data-dependent sparse-matrix products), grid_from_segments, floating-point rounding "
+    "of the geometry."
 )
-EXPLANATION = "pattern tables extracted from Grid.refine, _create_barycentric_connectivity_array, union, _find_*_adjacency, _element_filter, _compute_boundary_information and the edge-length copies"
+EXPLANATION = ("pattern tables extracted from Grid.refine, _create_barycentric_connectivity_array, union, _find_*_adjacency, _element_filter, _compute_boundary_information and the "
+               "edge-length copies; _compute_geometric_quantities interpreted on per-element symbolic rows (sa/geomq.py)")
 ASSUMPTIONS = ["affine invariance: areas/orientation/nesting on the reference triangle transfer to every non-degenerate element"]
 
 GRID = bary.GRID
@@ -121,6 +125,8 @@ def run(ctx):
     boundary(ctx)
     # (e) edge convention
     edge_convention(ctx)
+    # (f) geometric quantities against their definitions, for a general triangle
+    geometry(ctx)
 
 
 def _single(lst, what):
@@ -387,3 +393,56 @@ def boundary(ctx):
         okv = alloc_ok and good
         msg = "vertex flags: allocation all-False ok=%s; marks exactly the two vertices self.edges[:, e] of every boundary edge e ok=%s" % (alloc_ok, good)
     r.check(okv, "vertex flags", GRID, fn.name, fn.lineno, "boundary vertex flags", msg)
+
+
+def geometry(ctx):
+    """_compute_geometric_quantities, evaluated symbolically per element, equals the definitions."""
+    from .. import geomq
+    from ..alg import V
+
+    m = ctx.repo.mod(GRID)
+    fn = m.fn("Grid._compute_geometric_quantities")
+    r = ctx.rule("GEOM-DEFS", "normals (unit, right-handed), volumes, integration elements, diameters, centroids, Jacobians and inverse-transposed Jacobians equal their definitions on a general triangle", 9)
+    props = {}
+    for qn, f in m.functions.items():
+        if qn.startswith("Grid.") and qn.count(".") == 1 and any(unparse(d) == "property" for d in f.decorator_list):
+            rets = [s for s in f.body if isinstance(s, ast.Return)]
+            if len(rets) == 1 and isinstance(rets[0].value, ast.Attribute) and unparse(rets[0].value.value) == "self":
+                props[f.name] = rets[0].value.attr
+    got = geomq.GeomEval(fn, props).run()
+    want = geomq.expected()
+
+    def as_vec(x):
+        if isinstance(x, geomq.B) and x.k == 1:
+            return x.rows[0] if x.vec else [x.rows[0]]
+        if isinstance(x, geomq.Unset):
+            x = x.value
+        if isinstance(x, geomq.M):
+            return [c for row in x.ent for c in row]
+        return None
+
+    def same(a, b):
+        a = as_vec(a)
+        b = [c for row in b.ent for c in row] if isinstance(b, geomq.M) else (b if isinstance(b, list) else [b])
+        return a is not None and len(a) == len(b) and all(x.eq(y) for x, y in zip(a, b))
+
+    names = {"_volumes": "volumes = |(v1-v0) x (v2-v0)| / 2", "_normals": "normals = (v1-v0) x (v2-v0) normalised (right-handed w.r.t. the vertex order)",
+             "_jacobians": "jacobians = [v1-v0 | v2-v0] (3 x 2)", "_diameters": "diameters = |a||b||a-b| / |a x b| (circumscribed circle)", "_centroids": "centroids = (v0+v1+v2)/3",
+             "_integration_elements": "integration elements = |a x b|", "_jacobian_inverse_transposed": "inverse-transposed Jacobian = J (J^T J)^-1"}
+    for attr, text in names.items():
+        if attr not in got:
+            r.fail(text, GRID, fn.name, fn.lineno, "geometry attribute %s" % attr, "self.%s is not assigned by _compute_geometric_quantities" % attr)
+            continue
+        r.check(same(got[attr], want[attr]), text, GRID, fn.name, fn.lineno, "geometry attribute %s" % attr, "self.%s differs from its definition: %s" % (attr, text))
+    # derived identities that make the definitions meaningful
+    det, n2 = want["#lagrange"]
+    r.check(det.eq(n2), "Lagrange identity det(J^T J) = |a x b|^2 (so sqrt(det) is the surface element)", GRID, fn.name, fn.lineno, "lagrange identity", "KEX failed to prove the Lagrange identity")
+    if "_jacobian_inverse_transposed" in got and as_vec(got["_jacobian_inverse_transposed"]) is not None:
+        Mx = got["_jacobian_inverse_transposed"]
+        Mx = Mx.value if isinstance(Mx, geomq.Unset) else Mx
+        prod = Mx.T.dot(want["#J"])
+        ok = all(prod.ent[i][j].eq(V.const(1 if i == j else 0)) for i in range(2) for j in range(2))
+        r.check(ok, "(J^-T)^T J = I_2 (left inverse on the tangent plane)", GRID, fn.name, fn.lineno, "inverse transposed jacobian identity", "M^T J is not the 2x2 identity")
+    # embedded positive: a left-handed normal must be rejected
+    bad = [V.const(0) - x for x in want["_normals"]]
+    r.must_fire(not all(x.eq(y) for x, y in zip(bad, want["_normals"])), "normal with the opposite orientation")
